@@ -65,7 +65,7 @@ OBLIGATIONS = [
     kani("c11_normalize_range", ["C11"], "C11.normalize", "bemodel::utils::normalize"),
     kani("c10_orientation_of_wall", ["C10", "C11"], "C10.wall", "Orientation::from(&Wall) / Tilt::from(&Wall)"),
     kani("c11_poly_degenerate", ["C11"], "C11.poly.degenerate", "Polygon::area / perimeter", bounded="0 and 1 vertex"),
-    kani("c13_aabb_slab_exact", ["C13"], "C13.aabb.slab.exact", "AABB::intersects", bounded="integer boxes / origins in [-20,20], direction components in {-1,0,1}: all products exact", timeout=900),
+    kani("c13_aabb_slab_exact", ["C13"], "C13.aabb.slab.exact", "AABB::intersects", bounded="integer boxes / origins in [-20,20], direction components in {-1,-0.0,+0.0,1}: all products exact", timeout=900),
     kani("c13_pip_triangle_3", ["C13"], "C13.pip.triangle", "bemodel::energy::raytracing::ray::point_in_poly", bounded="triangles with integer corners in [-3,3]^2, integer points off the side lines (all of them)", timeout=600),
     kani("c13_pip_triangle_5", ["C13"], "C13.pip.triangle", "bemodel::energy::raytracing::ray::point_in_poly", tier="thorough", bounded="triangles with integer corners in [-5,5]^2, integer points off the side lines (all of them)", timeout=1800),
     # ---- C06 leaves -----------------------------------------------------------------------------------
@@ -159,6 +159,7 @@ OBLIGATIONS = [
     native("n_c05_reference_models", ["C05"], "C05.reference", "hulc::ctehexml::parse_with_catalog + Model::try_from against bemodel/tests/data/*.json", CV + "n_c05_reference_models"),
     native("n_c05_indicators_history", ["C05"], "C05.indicators", "Model::energy_indicators (global climate / radiation tables behind Mutex / lazy statics)", CV + "n_c05_indicators_history", timeout=900, sampled="always"),
     native("n_c01_export_tool", ["C01"], "C01.export", "hulc2model::cli::cli_main (the built hulc2model binary), thor main (the built thor binary) against hulc2model::collect_hulc_data / Model::try_from", "verif_hulc2model::n::n_c01_export_tool", pkg="hulc2model", bins=True, timeout=900),
+    native("n_c01_edited_projects", ["C01"], "C01.edited", "hulc2model::collect_hulc_data + Model::as_json / Model::from_json (what the tool prints loads as the library's model) on projects with one rewritten number", "verif_hulc2model::n::n_c01_edited_projects", pkg="hulc2model", timeout=900, timeout_thorough=6000, sampled="quick"),
     native("n_c19_extra_files", ["C19"], "C19.extra_files", "hulc2model::collect_hulc_data -> fix_ecdata_from_extra (hulc::kyg::parse_from_path, hulc::tbl::parse)", "verif_hulc2model::n::n_c19_extra_files", pkg="hulc2model", timeout=900, timeout_thorough=6000, sampled="quick"),
     native("n_c18_blocks", ["C18"], "C18.blocks", "hulc::bdl::build_blocks (sanitize_lider_data, clean_lines, BdlBlock::from_str, parse_attributes, AttrMap::insert, extract_namesvec, extract_f32vec)", "bdl::verif_hulc_bdl::n::n_c18_blocks", pkg="hulc", timeout=900, timeout_thorough=6000, sampled="always"),
     native("n_c18_relayout_real", ["C18"], "C18.relayout", "hulc::bdl::Data::new (block parser + typed elements: Space, Wall, Window, Polygon, Shading, ThermalBridge, Floor, Material, WallCons, WinCons, Glass, Frame, schedules)", "bdl::verif_hulc_bdl::n::n_c18_relayout_real", pkg="hulc", timeout=900, timeout_thorough=6000),
@@ -199,7 +200,7 @@ OBLIGATIONS = [
 
 PROPERTIES = {
     "C18": {"level": "exploration", "rule": "C18.blocks: descriptions generated from the description number by a fixed LCG (200 quick / 2000 thorough - a sample of an unbounded space) x all 1152 layouts; C18.relayout / typed / results: every shipped file x every listed layout or rewrite (complete); a case is non-trivial when the parser returned data (distinct keys: description or file, size, layout / rewrite)"},
-    "C01": {"level": "exploration", "rule": "every shipped project directory x {default, --use-extra} x {hulc2model, thor -o} plus three directories without project, enumerated completely (45 process runs); a case is non-trivial when a binary was run and compared with the library"},
+    "C01": {"level": "exploration", "rule": "C01.export: every shipped project directory and five hand-made variants of cubo x {default, --use-extra} x {hulc2model, thor -o} plus five directories without (convertible) project, enumerated completely; C01.edited: the tier's slice of lines (quick: every 16th line, offset by VERIF_SEED; thorough: every 2nd) x 4 values - a sample of the single-number edits in the quick tier; a case is non-trivial when a binary was run and compared with the library, or an edited project was converted and its document loaded back"},
     "C19": {"level": "fault_enumeration", "rule": "every shipped file x every line of the tier's slice (quick: every 8th / 20th / 4th / 6th line offset by VERIF_SEED; thorough: every line) x 11 kinds of single-line damage, enumerated by choice vector; an edit that does not apply to the line is skipped and not counted as non-trivial; distinct_nontrivial counts distinct (file kind, damage kind, outcome) classes, not cases"},
     "C05": {"level": "exploration", "rule": "every shipped project / model x the listed repetitions, twins and variants, enumerated completely; thread interleavings and process runs are sampled by running (16 threads, one fresh process per case), not explored; a case is non-trivial when a conversion or an indicator computation was compared"},
     "C02": {"level": "exploration", "rule": "every shipped project / legacy file; every referenced definition of every project renamed (two ways) or removed; every written link reference renamed; the first number of every line of the tier's slice (quick: every 6th line; thorough: every line) rewritten to 5 values; a case is non-trivial when the conversion ran to a model or to an error (distinct keys: project, block kind, outcome)"},
@@ -229,7 +230,7 @@ MANIFEST_TEXT = {
             "text": "Bounded: C18.blocks - 200 (thorough 2000) generated descriptions of 1..40 blocks of 28 kinds with 1..6 attributes (number, bare word, quoted text with blanks / commas / accents, name list, number list) printed in 1152 layouts (LF / CRLF, comments and blank lines, indentation and trailing blanks, attribute order, 4 number formats incl. 1.5E+03, quoted words, 3 list layouts incl. ')' on its own line, legacy preamble): name, type, parent and every attribute value of every block. C18.relayout - the BDL text of the 12 projects and 56 legacy files re-printed line by line in 12 (thorough 576) layouts gives the same bdl::Data. C18.typed - every window, wall, space + polygon, material, layer set, glazing, frame, window construction, rectangular shade and thermal bridge of the 68 files against the values written in its block, with the documented legacy defaults. C18.kyg / C18.tbl - either decimal separator, blanks, line ends. Not covered: blocks without attributes, other spacing around '=', the old KyG column layout.",
             "note": "The typed oracle reads the written values through the generic block parser, whose own recovery is what C18.blocks checks against the printed description; the printer emits only the layouts listed. " + _TB},
     "C01": {"technique": "contract on cli_main / thor main (exit status and standard output as postcondition), observed by running the real binaries built from the scratch copy and comparing with collect_hulc_data / Model::try_from called in-process (bounded stand-in; no verifier here models process I/O)",
-            "text": "Bounded: the hulc2model binary on the 12 shipped project directories x {default, --use-extra} (also given with a trailing slash and as a relative path) exits 0 and its standard output is exactly one JSON document (serde_json rejects any other text around it) that loads as the model the library yields (compared with the library's model itself); on an empty directory, a directory without project, a missing one and two directories whose project the library rejects (file cut in half, broken reference) it exits non-zero and writes no JSON, as it does with --use-extra on a copy of cubo whose result file is damaged (the library fails there); four synthetic variants of cubo (zero-area ground slab with / without perimeter insulation, turned by 30 degrees with a shifted space, protections on every window) convert and export a document that loads; thor -o writes byte-identical library JSON for the 12 project files, into a new file and over an existing longer one. About 190 process runs per check; nothing is discharged deductively.",
+            "text": "Bounded: the hulc2model binary on the 12 shipped project directories x {default, --use-extra} (also given with a trailing slash and as a relative path) exits 0 and its standard output is exactly one JSON document (serde_json rejects any other text around it) that loads as the model the library yields (compared with the library's model itself); on an empty directory, a directory without project, a missing one and two directories whose project the library rejects (file cut in half, broken reference) it exits non-zero and writes no JSON, as it does with --use-extra on a copy of cubo whose result file is damaged (the library fails there); four synthetic variants of cubo (zero-area ground slab with / without perimeter insulation, turned by 30 degrees with a shifted space, protections on every window) convert and export a document that loads; thor -o writes byte-identical library JSON for the 12 project files, into a new file and over an existing longer one. At the library level (C01.edited): every shipped project with the first number of one line rewritten to 0 / 1 / -7 / 100 (every 16th line; thorough every 2nd) that collect_hulc_data still converts gives a document (as_json) that loads back as that model. About 190 process runs per check; nothing is discharged deductively.",
             "note": "Besides the shipped projects only five hand-made variants of cubo are run; 'synthetic projects written by the verifier's BDL printer' of the property text are not generated at large. " + _TB},
     "C19": {"technique": "Kani proofs that Polygon::edge_vertices / mirror_y are total (no panic for any vertex name / an empty polygon) + contract 'returns Ok or Err, never panics, returns within 60 s' on parse_with_catalog + Model::try_from, bdl::Data::new, kyg::parse, tbl::parse and collect_hulc_data, evaluated on the real code over single-line damage of every shipped file (bounded stand-in; quick = a seeded slice, thorough = every line)",
             "text": "Bounded: 8 kinds of single-line damage (line deleted / duplicated, truncation, number -> text / 1e39 / -7, block removed, reference renamed) applied to every 8th line of the 12 .ctehexml projects, every 20th line of the 56 legacy .cte files, every 4th line of the KyG / tbl files and every 6th line of the result files of two projects read through collect_hulc_data (quick, offset by VERIF_SEED); thorough applies them to every line (2.7 million damaged files). Each crash site is its own obligation clause; the crash sites in the unfinished systems parser are listed as known findings, every other site is a violation.",
